@@ -29,6 +29,7 @@ type c14Cfg struct {
 	GenSel       bool
 	IgnoreStatus bool
 	Selector     bool
+	NoFinalize   bool // no finalize hook configured: a finalizer still on a parent is a leftover the next sync removes
 }
 
 type c14Case struct {
@@ -68,7 +69,7 @@ func c14Build(cfg c14Cfg, customize bool) *c14World {
 	if cfg.Cluster {
 		pk = kit.CThing
 	}
-	o := ccOpt{parent: pk, children: []*sim.Kind{kit.Leaf}, generateSel: cfg.GenSel, ignoreStatus: cfg.IgnoreStatus, customize: customize, finalize: true}
+	o := ccOpt{parent: pk, children: []*sim.Kind{kit.Leaf}, generateSel: cfg.GenSel, ignoreStatus: cfg.IgnoreStatus, customize: customize, finalize: !cfg.NoFinalize}
 	if cfg.Selector {
 		o.selector = &metav1.LabelSelector{MatchLabels: map[string]string{"app": "x"}}
 	}
@@ -90,6 +91,12 @@ func c14Build(cfg c14Cfg, customize bool) *c14World {
 	mk("p1", "p1", "x", false)
 	mk("p2", "p2", "y", false)
 	mk("p3", "p3", "y", true)
+	// p5: does not match, carries our finalizer, and is being deleted in the foreground (garbage-collector finalizer)
+	mk("p5", "p5", "y", true)
+	x.Sim.Edit(pk, x.pns("p5"), "p5", func(o map[string]interface{}) {
+		kit.Deleting(kit.Finalizers(o, c14Fin, "foregroundDeletion"))
+	})
+	x.parents["p5"] = x.Sim.Get(pk, x.pns("p5"), "p5")
 	if !cfg.Cluster {
 		mk("p4", "p1", "x", false)
 	}
@@ -126,7 +133,7 @@ func (x *c14World) child(ns, name string, mod func(o kit.M)) kit.M {
 // c14Events lists the event names for a configuration.
 func c14Events(cfg c14Cfg) []string {
 	var ev []string
-	for _, p := range []string{"p1", "p2", "p3"} {
+	for _, p := range []string{"p1", "p2", "p3", "p5"} {
 		for _, e := range []string{"add", "delete", "tombstone", "upd-status", "upd-generation", "upd-labels", "upd-annotations", "upd-deleting", "upd-app-flip"} {
 			ev = append(ev, "parent:"+p+":"+e)
 		}
@@ -455,8 +462,8 @@ func TestVerifC14(t *testing.T) {
 	r := mc.NewReport("C14", "composite")
 	defer r.Write()
 	idx := 0
-	for ci := 0; ci < 16; ci++ {
-		cfg := c14Cfg{Cluster: ci&1 != 0, GenSel: ci&2 != 0, IgnoreStatus: ci&4 != 0, Selector: ci&8 != 0}
+	for ci := 0; ci < 32; ci++ {
+		cfg := c14Cfg{Cluster: ci&1 != 0, GenSel: ci&2 != 0, IgnoreStatus: ci&4 != 0, Selector: ci&8 != 0, NoFinalize: ci&16 != 0}
 		for _, ev := range c14Events(cfg) {
 			idx++
 			if !mc.Mine(idx) {
